@@ -458,15 +458,16 @@ def run_check(prop, tier, seed):
             if l not in seen:
                 seen.add(l)
                 lines.append(l)
-        impl = [prop.project(l, o) for l, o in zip(lines, run_impl(lines))]
+        raw = run_impl(lines)
+        impl = [prop.project(l, o) for l, o in zip(lines, raw)]
         if ok_drv:
             model, spec = run_model(lines)
         else:
             model, spec = ["?"] * len(lines), ["?"] * len(lines)
         for i, l in enumerate(lines):
-            k = prop.klass(l, impl[i])
+            k = prop.klass_raw(l, raw[i]) if hasattr(prop, "klass_raw") else prop.klass(l, impl[i])
             classes[k] = classes.get(k, 0) + 1
-            if not prop.trivial(l, impl[i]):
+            if not (prop.trivial_raw(l, raw[i]) if hasattr(prop, "trivial_raw") else prop.trivial(l, impl[i])):
                 nontrivial.add(l)
             if ok_drv and impl[i] != untag(model[i]):
                 corr_bad.append(i)
